@@ -26,7 +26,7 @@ PAIRS = {
     "CvtToFuzzyCurve": ("NormalizeCurve", lambda p: {"RawValues": p["RawValues"], "NormalValues": p["FuzzyValues"]}),
     "CvtToFuzzyMeanToMid": ("NormalizeMeanToMid", lambda p: {"IgnoreZeros": p["IgnoreZeros"], "NormalValues": p["FuzzyValues"]}),
     "CvtToFuzzyCurveZScore": ("NormalizeCurveZScore", lambda p: {"ZScoreValues": p["ZScoreValues"], "NormalValues": p["FuzzyValues"]}),
-    "CvtToFuzzyZScore": ("NormalizeZScore", lambda p: dict(p, StartVal=-1, EndVal=1)),
+    "CvtToFuzzyZScore": ("NormalizeZScore", lambda p: dict({"TrueThresholdZScore": 1, "FalseThresholdZScore": -1}, StartVal=-1, EndVal=1, **p)),
 }
 MONOTONE = ("CvtToFuzzy", "CvtFromFuzzy", "CvtToBinary", "Normalize", "NormalizeZScore", "CvtToFuzzyZScore")
 
